@@ -3,7 +3,8 @@
 A program (adds of callbacks/errbacks with data-described behaviours, pause/unpause, callback/errback, over n
 Deferreds) is run on REAL `twisted.internet.defer.Deferred` objects and compared, operation by operation, with
   * the Lean chain-stack model `TwistedModel/Defer/Core.lean` (faithful transcription of `_runCallbacks`)   — the tie;
-  * the recursive reference interpreter — once in Lean (`TwistedModel/Defer/Spec.lean`, through the driver) and once
+  * the recursive reference interpreter (documented chaining rules incl. the `_runningCallbacks` guard and the immediate
+    use of an already-fired Deferred's result) — once in Lean (`TwistedModel/Defer/Spec.lean`, through the driver) and once
     as the Python transcription `_spec_history` below (kept textually parallel; the two are cross-checked on every
     case) — the property oracle, evaluated on what the real objects did, independently of the chain-stack model.
 """
@@ -13,7 +14,7 @@ from twisted.internet import defer
 from twisted.internet.defer import AlreadyCalledError, Deferred
 from twisted.python.failure import Failure
 
-HEADLINE = "TwistedProps.C01.run_refines_spec_partial"
+HEADLINE = "TwistedProps.C01.run_refines_spec"
 RULE = ("programs over n<=6 Deferreds and <=20 operations from {addCallback, addErrback, addBoth, addCallbacks} x "
         "behaviours {return value, raise, return Failure, return Deferred i (fired / unfired / paused / itself waiting / "
         "mid-chain)}, pause, unpause, callback, errback. quick: EVERY program of length <=3 over a 2-Deferred alphabet of "
@@ -30,6 +31,10 @@ ASSUMES = [
     "outnumbers pause() on a Deferred (a negative pause count is API misuse) and no callable returns the Deferred it is "
     "attached to (Twisted warns: 'this breaks the callback chain'); programs outside it are still run and tied to the model",
     "Failure identity is abstracted to the tag of the exception it wraps; Deferred.debug is off",
+    "the reference interpreter implements the documented chaining rules incl. the two stated in the docstring of "
+    "Deferred._runCallbacks: the _runningCallbacks guard (a Deferred whose loop is on the call stack is not re-entered) and "
+    "'if a Deferred with a result is encountered, that result is taken and the loop proceeds' (fired, not paused, plain "
+    "result, nothing left to run)",
 ]
 TRUSTED = ["harness callables (log (deferred, tag, input) then behave as described)",
            "the Python transcription of the reference interpreter in harness/corr/C01.py (cross-checked against the Lean "
@@ -41,17 +46,25 @@ MANIFEST = {
             "in the order the callables were added (and before everything still pending); for every Deferred that no callable "
             "returns and whose callables return no Deferred (static check), in ANY program: each input is the previous callable's "
             "output, the first input is a fired value, the current result is the last output; the chain stack is a call stack "
-            "(walk of top++below = walk of top, then of below). Refinement of the recursive reference interpreter is PROVED only "
-            "for programs whose callables return no Deferred (run_refines_spec_partial: equal outcome and state after every "
-            "operation); for chaining programs it is checked, not proved: both interpreters run on every generated case "
-            "(exhaustive short programs + random), and the reference interpreter is evaluated against the real objects. Model "
-            "tied to defer.py by per-operation differential runs (outcome, invocations with inputs and outputs, "
-            "called/paused/result/pending callbacks incl. continuations of every Deferred).",
-    "note": "partial: refinement core = reference interpreter is proved for non-chaining programs only (full statement and the "
-            "missing induction are spelled out in TwistedProps/C01.lean §4); trusts Lean kernel, the hand model of Deferred "
-            "core (differentially tied), the harness callables",
-    "technique": "Lean 4 proof (termination measure + invariants over the small-step chain walk + refinement of a recursive "
-                 "reference interpreter) + differential tie + reference-interpreter oracle on the real code",
+            "(walk of top++below = walk of top, then of below). REFINEMENT, full (run_refines_spec): for EVERY program inside the "
+            "statement's domain (unpause never outnumbers pause, no callable returns its own Deferred) - callables returning "
+            "fired, unfired, paused, waiting Deferreds, Deferreds returned while in the middle of their own chain, several "
+            "Deferreds waiting on one, results taken from fired Deferreds, pauses while waiting - the recursive reference "
+            "interpreter of the documented chaining rules (incl. the _runningCallbacks guard and the immediate use of an "
+            "already-fired Deferred's result) and the chain-stack implementation produce the SAME outcome and the SAME state "
+            "(heap incl. pause counts and continuations, global trace, counters) after every operation; proved from heap "
+            "invariants preserved by every loop iteration and operation: called<->result set, paused >= user pauses + "
+            "outstanding continuations, a Deferred holding a Deferred is paused, continuations belong to fired Deferreds, a "
+            "fired unpaused Deferred with a plain result that is not on the chain stack has no callbacks, the Deferreds below "
+            "the top of the stack are unpaused and distinct. run_refines_spec_nonchaining covers non-chaining programs with "
+            "unbalanced pauses. Model tied to defer.py by per-operation differential runs (outcome, invocations with inputs "
+            "and outputs, called/paused/result/pending callbacks incl. continuations of every Deferred); both interpreters run "
+            "on every generated case and the reference is evaluated against the real objects.",
+    "note": "input=previous-output is proved directly for leaf Deferreds only; for Deferreds that take part in chaining the inputs "
+            "are those of the reference interpreter (run_refines_spec). Trusts Lean kernel, the hand model of Deferred core "
+            "(differentially tied), the reference interpreter as the reading of the documented rules, the harness callables",
+    "technique": "Lean 4 proof (termination measure + invariants over the small-step chain walk + simulation of a recursive "
+                 "reference interpreter by the chain stack) + differential tie + reference-interpreter oracle on the real code",
     "design_ref": "DESIGN.md §7 C01",
 }
 
@@ -246,10 +259,12 @@ class _Spec:
         self.cells = [_SCell() for _ in range(n)]
         self.trace = []
         self.nadds = 0
-        self.active = []          # Deferreds whose run() is on the Python stack (diagnosis only)
+        self.active = []          # Deferreds whose loop is on the call stack (`_runningCallbacks`)
         self.midchain_return = False
 
     def run(self, d):
+        if d in self.active:
+            return                # `if self._runningCallbacks: return` — its loop is further up the call stack
         cells = self.cells
         cell = cells[d]
         if cell.paused != 0:
@@ -257,38 +272,43 @@ class _Spec:
         if not cell.callbacks:
             return
         item = cell.callbacks.pop(0)
-        self.active.append(d)
-        try:
-            if item[0] == "k":
-                # resume(c): c.result = d.result; d.result = None; c.unpause()
-                c = item[1]
-                cc = cells[c]
-                cc.result = cell.result
-                cc.paused -= 1
-                cell.result = "N"
-                if cc.paused == 0 and cc.called:
+        if item[0] == "k":
+            # resume(c): c.result = d.result; d.result = None; c.unpause()   (d is running meanwhile)
+            c = item[1]
+            cc = cells[c]
+            cc.result = cell.result
+            cc.paused -= 1
+            cell.result = "N"
+            if cc.paused == 0 and cc.called:
+                self.active.append(d)
+                try:
                     self.run(c)
+                finally:
+                    self.active.pop()
+        else:
+            _, tag, cb, eb = item
+            slot = eb if cell.result[0] == "e" else cb
+            if slot == "p":
+                out = cell.result
             else:
-                _, tag, cb, eb = item
-                slot = eb if cell.result[0] == "e" else cb
-                if slot == "p":
-                    out = cell.result
+                out = _beh_out(slot)
+                self.trace.append((d, tag, cell.result, out))
+            cell.result = out
+            if out[0] == "d":
+                j = int(out[1:])
+                cj = cells[j]
+                if cj.result != "-" and cj.result[0] != "d" and cj.paused == 0 and not cj.callbacks:
+                    # already fired, nothing left to run: "that result is taken and the loop proceeds"
+                    cell.result = cj.result
+                    cj.result = "N"
                 else:
-                    out = _beh_out(slot)
-                    self.trace.append((d, tag, cell.result, out))
-                cell.result = out
-                if out[0] == "d":
-                    j = int(out[1:])
                     cell.paused += 1
-                    cj = cells[j]
                     cj.callbacks.append(("k", d))
                     if j in self.active:
                         self.midchain_return = True
                     if cj.called:
                         self.run(j)
                     return
-        finally:
-            self.active.pop()
         self.run(d)
 
     def op(self, tok):
@@ -614,6 +634,13 @@ def corpus():
         {"n": 3, "ops": ["ac0:d2", "ac1:d2", "cb0:1", "cb1:2", "ab2:v3", "p0", "cb2:9", "u0"]},
         # a Deferred returned again while it is in the middle of its own chain
         {"n": 2, "ops": ["ac0:d1", "ac0:d1", "ab0:v2", "cb0:1", "ab1:v7", "cb1:5"]},
+        # Deferred 2 is returned (by 0) while it is in the middle of its chain, its loop on the stack: it is not re-entered
+        # (_runningCallbacks); 1 finishes before 2, both return the unfired Deferred 3, 1 queues first and gets 3's result.
+        # (A reference interpreter without the guard re-entered 2 and predicted the opposite: a false alarm of the check.)
+        {"n": 4, "ops": ["ac1:d2", "cb1:0", "ac0:d1", "ac0:d2", "cb0:0", "ac1:d3", "ac2:d3", "cb2:5", "cb3:7"]},
+        # the same with Deferred 2 having nothing left to run when it is returned: its result is used at once, 0 goes on and
+        # reaches 3 before 1 does (a guard-only reference would park 0 until 2's frame resumes)
+        {"n": 4, "ops": ["ac1:d2", "cb1:0", "ac0:d1", "ac0:d2", "ac0:d3", "cb0:0", "ac1:d3", "cb2:5", "cb3:7"]},
         # the paths of _runCallbacks, one each
         {"n": 1, "ops": ["ac0:v1", "ae0:v2", "ab0:x3", "aa0:v4:f5", "aa0:p:p", "cb0:0", "cb0:1", "eb0:2"]},
         {"n": 2, "ops": ["cb1:5", "ac0:d1", "ab0:v2", "cb0:1", "ab1:v3"]},
